@@ -51,6 +51,7 @@ def plan(tier, seed):
         shards.append({'kind': 'triples', 'n': 150})
         shards.append({'kind': 'random', 'n': 12})
         shards.append({'kind': 'primitives'})
+        shards.append({'kind': 'shipped-layers'})
         return shards
     for b in geoops.BASES:
         for i in range(6):
@@ -60,13 +61,15 @@ def plan(tier, seed):
     for i in range(8):
         shards.append({'kind': 'random', 'n': 40})
     shards.append({'kind': 'primitives'})
+    shards.append({'kind': 'shipped-layers'})
     return shards
 
 
 def opkind(op):
+    names = '[by-name]' if op[-1] == 'by_name' else ''
     if op[0] == 'refine':
-        return 'refine' if not op[2] else 'refine[bisect=%s]%s' % (op[2], '+edge' if op[3] else '')
-    return op[0]
+        return ('refine' if not op[2] else 'refine[bisect=%s]%s' % (op[2], '+edge' if op[3] else '')) + names
+    return op[0] + names
 
 
 def judge(ctx, geo, ops, case, promised=None, primitive=False):
@@ -110,6 +113,60 @@ def partial_model(ctx, before, geo, op, case):
             V('layer-elevations', 'layer bottoms %r, expected %r' % (got, exp))
         if len(set(l.name for l in geo.layerlist)) != len(geo.layerlist):
             V('layer-names', 'duplicate layer names after refine_layers')
+    elif k == 'fit_surface':
+        targets = set(op[3]) if op[3] else set(before['surfaces'])
+        bounds = sorted(set([l.bottom for l in geo.layerlist] + [geo.layerlist[0].top]))
+        for c in geo.columnlist:
+            s0 = before['surfaces'].get(c.name)
+            if c.name not in targets:
+                if s0 is not None and c.surface != s0:
+                    V('surfaces', 'column %r is not among the fitted columns, its surface went from %r to %r' % (c.name, s0, c.surface))
+                    break
+                continue
+            if not (c.surface == c.surface and abs(c.surface) < 1e300):
+                V('surfaces', 'column %r fitted surface %r' % (c.name, c.surface))
+                break
+            below = [b for b in bounds if b < c.surface - 1e-9]
+            if op[2] > 0 and below and c.surface - below[-1] < op[2] - 1e-9 and below[-1] > bounds[0]:
+                V('surfaces', 'column %r: top block %.6g thick after fit_surface(layer_snap=%r)' % (c.name, c.surface - below[-1], op[2]))
+                break
+    elif k == 'bad_centre+check_fix':
+        c = geo.column.get(op[1])
+        if c is not None:
+            from vf.oracle import polygeo
+            poly = [(float(n.pos[0]), float(n.pos[1])) for n in c.node]
+            if not polygeo.inside((float(c.centre[0]), float(c.centre[1])), poly):
+                V('column-centre', 'column %r: centre %r still outside the column after check(fix=True)' % (c.name, list(c.centre)))
+    elif k == 'bad_layer+check_fix':
+        lay = geo.layer.get(op[1])
+        if lay is not None and not (lay.bottom <= lay.centre <= lay.top):
+            V('layer-centre', 'layer %r: centre %r outside [%r, %r] after check(fix=True)' % (lay.name, lay.centre, lay.bottom, lay.top))
+    elif k in ('well+translate', 'well+rotate'):
+        import math
+        w = geo.well.get('wz  9')
+        c0 = before['first_column']
+        col = geo.column.get(c0[0])
+        if w is None or col is None:
+            V('well', 'well or its column missing after %s' % k)
+        else:
+            # where the well was before the motion: where an earlier operation of the sequence left it, or - drilled by this
+            # operation - at the centre of the first column from the top of the model to its bottom
+            was = before['wells'].get('wz  9') or [(c0[1], c0[2], before['all_layers'][0][1]), (c0[1], c0[2], before['all_layers'][-1][1])]
+            dz = op[1][2] if k == 'well+translate' else 0.0
+            # rigid motion: every point of the track keeps its distance to every node of that column, and moves up by the shift
+            for n in col.node:
+                p0 = before['nodes'].get(n.name)
+                if p0 is None:
+                    continue
+                for q0, pos in zip(was, w.pos):
+                    d0 = math.hypot(q0[0] - p0[0], q0[1] - p0[1])
+                    d1 = math.hypot(float(pos[0]) - float(n.pos[0]), float(pos[1]) - float(n.pos[1]))
+                    if abs(d0 - d1) > 1e-6 * max(1.0, d0):
+                        V('well-position', 'well at distance %r from node %r before and %r after %s' % (d0, n.name, d1, k))
+                        return
+                    if abs(float(pos[2]) - q0[2] - dz) > 1e-6:
+                        V('well-position', 'well point elevation %r before, %r after %s' % (q0[2], float(pos[2]), k))
+                        return
     elif k == 'translate':
         for n in geo.nodelist:
             p0 = before['nodes'].get(n.name)
@@ -147,7 +204,9 @@ def snapshot(geo):
     return {'cols': set(c.name for c in geo.columnlist), 'layers': [l.name for l in geo.layerlist[1:]],
             'layer_list': [(l.name, l.bottom, l.top) for l in geo.layerlist[1:]], 'all_layers': [(l.name, l.bottom) for l in geo.layerlist],
             'nodes': dict((n.name, (float(n.pos[0]), float(n.pos[1]))) for n in geo.nodelist),
-            'surfaces': dict((c.name, float(c.surface)) for c in geo.columnlist)}
+            'surfaces': dict((c.name, float(c.surface)) for c in geo.columnlist),
+            'wells': dict((w.name, [tuple(float(x) for x in pos) for pos in w.pos]) for w in geo.welllist),
+            'first_column': (geo.columnlist[0].name, float(geo.columnlist[0].centre[0]), float(geo.columnlist[0].centre[1])) if geo.columnlist else None}
 
 
 def run_indexed(ctx, base, indices, atm=2, conv=0, subset_limit=256, light=True, judge_all=False):
@@ -300,7 +359,7 @@ def run_random(ctx, spec):
             if geo.num_layers > 2:
                 desc['surfaces'] = geos.set_surfaces(geo, rng, 'mixed', frac=0.4)
         else:
-            name = rng.choice(['g7', 'g5', 'g6', 'g3'])
+            name = rng.choice(['g7', 'g5', 'g6', 'g3', 'g1', 'g2', 'g4'])
             geo = geos.load_shipped(name)
             desc = {'kind': 'shipped', 'name': name}
             if name == 'g3':
@@ -329,9 +388,13 @@ def run_random(ctx, spec):
             op = rng.choice(cand)
             ops.append(op)
             before = snapshot(geo)
-            with ctx.guard(case, where=opkind(op)) as g:
+            # (a long random sequence of refinements can use up the names of a 2-character convention: the explicit naming
+            #  error is then the right answer - whether it comes at the right moment is property C17 - and ends the sequence)
+            with ctx.guard(case, where=opkind(op), expected=(R.mulgrids.NamingConventionError,)) as g:
                 geoops.apply_op(geo, op)
             if g.raised is not None:
+                if isinstance(g.raised, R.mulgrids.NamingConventionError):
+                    ctx.count('sequences_ended_by_naming_error')
                 break
             ctx.see('operation_kinds', opkind(op))
             ok = judge(ctx, geo, ops, dict(case, ops=list(ops)))
@@ -457,16 +520,48 @@ def run_checkfix(ctx):
         ctx.case(repr(case), nontrivial=True)
 
 
+def run_shipped_layers(ctx, spec):
+    """Layer operations on every shipped geometry as it comes from its file: these have surface layers called anything
+    ('GS', '99', ' 1' - a name the regenerated layer names may want too), which generated geometries do not."""
+    for name in geos.SHIPPED:
+        g0 = geos.load_shipped(name)
+        lays = [l.name for l in g0.layerlist[1:]]
+        todo = [['refine_layers', [], 2], ['refine_layers', lays[:2], 3], ['refine_layers', lays[-1:], 2, 'by_name'],
+                ['rename_layer', lays[0], 'zq'[:len(lays[0])].rjust(len(lays[0]))], ['delete_layer', lays[-1]]]
+        for op in todo:
+            geo = geos.load_shipped(name)
+            case = {'geo': {'kind': 'shipped', 'name': name}, 'ops': [op], 'shipped_layers': True}
+            before = snapshot(geo)
+            with ctx.guard(case, where=opkind(op)) as g:
+                geoops.apply_op(geo, op)
+                if op[0] == 'delete_layer':
+                    geoops.careful_refresh(geo)          # a primitive: the caller refreshes
+            if g.raised is not None:
+                continue
+            ctx.evaluated()
+            ctx.count('shipped_layer_operations')
+            ctx.see('operation_kinds', opkind(op))
+            ctx.case(('shipped-layers', name, repr(op)), nontrivial=True)
+            bad = [b for b in GI.geo_invariants(geo, promised_valid=False) if b[0].startswith('layer') or 'name' in b[0] or 'block' in b[0]]
+            ctx.count('invariant_evaluations')
+            for kind, text in bad[:2]:
+                ctx.violation('invariant:%s:after:%s:shipped' % (kind, opkind(op)), '%s: %s' % (name, text), case)
+            partial_model(ctx, before, geo, op, case)
+
+
 def run_shard(ctx, spec):
     if spec['kind'] == 'primitives':
         run_checkfix(ctx)
-    {'singles': run_singles, 'pairs': run_pairs, 'triples': run_triples, 'random': run_random, 'primitives': run_primitives}[spec['kind']](ctx, spec)
+    {'singles': run_singles, 'pairs': run_pairs, 'triples': run_triples, 'random': run_random, 'primitives': run_primitives,
+     'shipped-layers': run_shipped_layers}[spec['kind']](ctx, spec)
 
 
 def replay(ctx, case):
     if 'indices' in case:
         run_indexed(ctx, case['base'], case['indices'], atm=case.get('atmos_type', 2), conv=case.get('convention', 0),
                     subset_limit=case.get('subset_limit', 256), light=case.get('light', True), judge_all=True)
+    elif case.get('shipped_layers'):
+        run_shipped_layers(ctx, {})
     elif 'pair' in case:
         run_pair(ctx, case['base'], case['pair'][0], case['pair'][1], case.get('second_subset_limit', 256))
     elif 'triple_indices' in case:
